@@ -25,6 +25,14 @@ def parse_cases(printed, grammar):
     return cases
 
 
+def finding_key(x):
+    """(class, innermost paramiko frame); an exception raised in the caller's own thread (not handed over by the
+    transport thread) also names the parse site, because the decoder frame alone would not tell the paths apart"""
+    if x.get("via_run", True):
+        return "%s@%s" % (x["cls"], x["site"])
+    return "%s@%s<-%s" % (x["cls"], x["site"], x.get("parser", "-"))
+
+
 def stratum(case):
     t = case["types"][case["idx"] - 1] if case["idx"] > 0 else "message"
     return (case["role"], t, case["class"])
@@ -166,7 +174,7 @@ def run(c):
         for x, present, surface in ((m["api"], b["api"]["raised"], "raised by " + b["api"]["call"]),
                                     (m["saved"], b["saved"]["present"], "get_exception()")):
             if internal(x, present):
-                key = "%s@%s" % (x["cls"], x["site"])
+                key = finding_key(x)
                 s = seen.setdefault(key, {"n": 0, "parsers": set(), "surfaces": set(), "roles": set()})
                 s["n"] += 1
                 s["parsers"].add(x.get("parser", "-"))
@@ -177,7 +185,7 @@ def run(c):
         b, m = batch[tid - 1], meta[tid - 1]
         if clause.startswith("P_") or clause == "C_other_api_internal_error":
             x = m["api"] if clause in ("P_api_raised_internal_error", "C_other_api_internal_error") else m["saved"]
-            key = "%s@%s" % (x["cls"], x["site"])
+            key = finding_key(x)
             s = seen.get(key, {"n": 1, "parsers": {x.get("parser", "-")}, "surfaces": set(), "roles": {b["role"]}})
             what = ("%s escaped (innermost paramiko frame %s; %d runs, victim role(s) %s; surfaced via %s; parse sites: %s); "
                     "e.g. %s victim, stage %s, %s field %s (%s): %s" % (
@@ -214,7 +222,8 @@ def run(c):
               "distinct = distinct abstract cases executed" % (
                   len(cases), "quick: the fixed stratum first (every field of every message parsed in the "
                   "authentication stages, both roles, each auth method incl. the auth_password -> keyboard-interactive "
-                  "fallback: cut before / inside the field, not UTF-8; always executed), then one case per (role, field "
+                  "fallback, and of EXT_INFO stored before a later auth_publickey / auth_password call of Transport "
+                  "and ServiceRequestingTransport: cut before / inside the field, not UTF-8; always executed), then one case per (role, field "
                   "type, class) stratum interleaved with random picks until the time budget ends" if c.quick else "thorough: every case twice (second pass: client victims are "
                   "ServiceRequestingTransport)"))
     c.assumptions = [
